@@ -222,11 +222,15 @@ func ValidateLogConfig(cfg *configpb.LogConfig) (*ValidatedLogConfig, error) {
 			return nil, errors.New("missing ctfe_storage_connection_string when issuance chain storage backend is CTFE")
 		}
 		// Validate CTFEStorageConnectionString
-		if strings.HasPrefix(cfg.CtfeStorageConnectionString, "mysql") {
-			if _, err := mysql.ParseDSN(strings.Split(cfg.CtfeStorageConnectionString, "://")[1]); err != nil {
+		scheme, dsn, found := strings.Cut(cfg.CtfeStorageConnectionString, "://")
+		if !found {
+			return nil, errors.New("missing driver:// in ctfe_storage_connection_string")
+		}
+		if strings.HasPrefix(scheme, "mysql") {
+			if _, err := mysql.ParseDSN(dsn); err != nil {
 				return nil, errors.New("failed to parse ctfe_storage_connection_string for mysql driver")
 			}
-		} else if strings.HasPrefix(cfg.CtfeStorageConnectionString, "postgres") {
+		} else if strings.HasPrefix(scheme, "postgres") {
 			if _, err := pgconn.ParseConfig(cfg.CtfeStorageConnectionString); err != nil {
 				return nil, errors.New("failed to parse ctfe_storage_connection_string for postgresql pgx driver")
 			}
